@@ -26,6 +26,14 @@ func h64(parts ...interface{}) uint64 {
 
 // fullProfile is the general-purpose application profile used by the twin checks.
 func fullProfile(t *tape.Tape, flagCount uint32) app.Profile {
+	p := fullProfile0(t, flagCount)
+	if p.ExtLang {
+		p.Translations = true // a language switch is only visible where translations exist
+	}
+	return p
+}
+
+func fullProfile0(t *tape.Tape, flagCount uint32) app.Profile {
 	return app.Profile{
 		MaxNodes: 6, MaxExt: 4, FlagCount: flagCount,
 		Sinks: true, MSink: true, Menus: true, Browse: true,
